@@ -883,3 +883,479 @@ func refFieldBuf(r *engine.Run, rule string, fns []*ssa.Function) {
 	}
 	r.OK(rule, "Bytes() calls", "-", fmt.Sprintf("%d calls of (*bytes.Buffer).Bytes() in methods inspected; none returns a view of a buffer kept in the receiver", n))
 }
+
+// ---- round 7 ----------------------------------------------------------------------
+
+// nilResult: a decoder hands back (value, error); on a decoding error the value is
+// nil. A use that dereferences the value (a method called on it, a field read, an
+// unchecked type assertion) before the error was looked at turns malformed bytes
+// into a nil-pointer panic - inside the worker goroutines of GetPath one that no
+// caller can recover.
+//
+// Rule: in the packages of the two tries, at every call of a function from the
+// decoder closure that returns a pointer/interface value together with an error,
+// every dereferencing use of that value is reached only where the error tested
+// nil or the value tested non-nil. For the one decoder that also returns
+// (nil, nil) - deserializeTrie on an exhausted pair list - the caller tests the
+// list non-empty before the call or the result non-nil before the use.
+func nilResult(r *engine.Run, rule string, fns []*ssa.Function) {
+	n := 0
+	for _, f := range fns {
+		if len(f.Blocks) == 0 {
+			continue
+		}
+		o := ord{}
+		engine.Instrs(f, func(in ssa.Instruction) {
+			c, ok := in.(*ssa.Call)
+			if !ok {
+				return
+			}
+			g := c.Call.StaticCallee()
+			if g == nil || !decoderReach[g] {
+				return
+			}
+			tup, ok := c.Type().(*types.Tuple)
+			if !ok || tup.Len() < 2 || !isErrorType(tup.At(tup.Len()-1).Type()) {
+				return
+			}
+			errv := extractOf(c, tup.Len()-1)
+			for i := 0; i < tup.Len()-1; i++ {
+				switch tup.At(i).Type().Underlying().(type) {
+				case *types.Pointer, *types.Interface:
+				default:
+					continue
+				}
+				v := extractOf(c, i)
+				if v == nil {
+					continue
+				}
+				// where the value goes: directly, or through the field/local it is stored into
+				type use struct {
+					at      ssa.Instruction
+					what    string
+					subject ssa.Value
+				}
+				var uses []use
+				var collect func(x ssa.Value, depth int)
+				collect = func(x ssa.Value, depth int) {
+					if depth > 2 {
+						return
+					}
+					for _, ref := range engine.Referrers(x) {
+						switch y := ref.(type) {
+						case *ssa.Call:
+							if y.Call.IsInvoke() && y.Call.Value == x {
+								uses = append(uses, use{y, "method " + y.Call.Method.Name() + " called on it", x})
+							}
+						case *ssa.FieldAddr:
+							if y.X == x {
+								uses = append(uses, use{y, "field read", x})
+							}
+						case *ssa.UnOp:
+							if y.Op == token.MUL && y.X == x {
+								uses = append(uses, use{y, "dereference", x})
+							}
+						case *ssa.TypeAssert:
+							if y.X == x && !y.CommaOk {
+								if _, isIface := y.AssertedType.Underlying().(*types.Interface); !isIface {
+									uses = append(uses, use{y, "unchecked type assertion", x})
+								}
+							}
+						case *ssa.Store:
+							// stored into a field of the receiver / a local: follow the loads that come after
+							if y.Val == x {
+								if fa, ok := y.Addr.(*ssa.FieldAddr); ok {
+									engine.Instrs(f, func(in2 ssa.Instruction) {
+										if ld, ok := in2.(*ssa.UnOp); ok && ld.Op == token.MUL {
+											if fa2, ok := ld.X.(*ssa.FieldAddr); ok && fa2.X == fa.X && fa2.Field == fa.Field && engine.ReachableAfter(y, ld) {
+												collect(ld, depth+1)
+											}
+										}
+									})
+								}
+							}
+						}
+					}
+				}
+				collect(v, 0)
+				// a decoder that can also answer (nil, nil): the error alone says nothing about the value
+				nilNil := mayReturnNilNil(g, map[*ssa.Function]bool{})
+				guardParam := -1
+				if nilNil {
+					guardParam = nilNilUnderEmpty(g)
+				}
+				for _, u := range uses {
+					n++
+					good := false
+					if nilNil {
+						// accepted: the value tested non-nil (below), or the list whose emptiness is the
+						// callee's only reason for (nil, nil) tested non-empty
+						if guardParam >= 0 && guardParam < len(c.Call.Args) {
+							if facts, okf := engine.FactsOn(f, u.at.Block()); okf && nonEmptyFact(facts, c.Call.Args[guardParam]) {
+								good = true
+							}
+						}
+						if facts, okf := engine.FactsOn(f, u.at.Block()); okf {
+							for _, ft := range facts {
+								if ft.Kind == "eq" && !ft.Truth && (nilConst(ft.A) || nilConst(ft.B)) {
+									other := ft.A
+									if nilConst(ft.A) {
+										other = ft.B
+									}
+									if other == v || other == u.subject || engine.ValKey(other) == engine.ValKey(u.subject) {
+										good = true
+									}
+								}
+							}
+						}
+						r.Check(good, rule, o.next(fn(f)+"|result of "+g.Name()), r.P.Pos(u.at.Pos()), "the value is used only where it tested non-nil or the decoded list tested non-empty",
+							"the value returned by "+engine.CalleeName(c)+" is used ("+u.what+") although that function also answers (nil, nil) - for an empty list - and neither the value was tested non-nil nor the list non-empty: an input with an empty list makes the use panic with a nil dereference")
+						continue
+					}
+					if facts, okf := engine.FactsOn(f, u.at.Block()); okf {
+						for _, ft := range facts {
+							if ft.Kind != "eq" {
+								continue
+							}
+							if errv != nil && ft.Truth && (ft.A == ssa.Value(errv) && nilConst(ft.B) || ft.B == ssa.Value(errv) && nilConst(ft.A)) {
+								good = true
+							}
+							if !ft.Truth && (nilConst(ft.A) || nilConst(ft.B)) {
+								// some value tested non-nil: accept when it is this value or a load of where it was stored
+								other := ft.A
+								if nilConst(ft.A) {
+									other = ft.B
+								}
+								if other == v || other == u.subject || engine.ValKey(other) == engine.ValKey(u.subject) {
+									good = true
+								}
+							}
+						}
+					}
+					if u.at.Block() == c.Block() && engine.InstrIndex(u.at) > engine.InstrIndex(c) {
+						good = false // used in the call's own block: nothing was tested in between
+					}
+					r.Check(good, rule, o.next(fn(f)+"|result of "+g.Name()), r.P.Pos(u.at.Pos()), "the decoded value is used only where the call's error tested nil",
+						"the value returned by "+engine.CalleeName(c)+" is used ("+u.what+") on a path where its error has not been tested: on malformed bytes the decoder returns a nil value with the error, and the use panics with a nil dereference instead of the error being returned")
+				}
+			}
+		})
+	}
+	if n < 3 {
+		r.Anchor(rule, fmt.Errorf("unresolved anchor: only %d dereferencing uses of decoder results found", n))
+	}
+}
+
+// domCollected: the export GetPath hands out is what collectNodes gathered from
+// the (loaded) root after the requested keys were marked. A return that hands out
+// an export without having gone through the collection - a shortcut for a root
+// that "looks empty", say - exports something else than the trie.
+//
+// Rule: every return of GetPath whose first result is not the nil constant is
+// dominated by the call of collectNodes.
+func domCollected(r *engine.Run, rule string) {
+	f := wfn(r, rule, "GetPath")
+	collect := wfn(r, rule, "collectNodes")
+	if f == nil || collect == nil {
+		return
+	}
+	var calls []*ssa.Call
+	engine.Instrs(f, func(in ssa.Instruction) {
+		if c, ok := in.(*ssa.Call); ok && c.Call.StaticCallee() == collect {
+			calls = append(calls, c)
+		}
+	})
+	if len(calls) == 0 {
+		r.Anchor(rule, fmt.Errorf("unresolved anchor: call of collectNodes in GetPath"))
+		return
+	}
+	o := ord{}
+	n := 0
+	for _, ret := range engine.Returns(f) {
+		if len(ret.Results) != 2 || nilConst(resultValue(ret, 0)) {
+			continue
+		}
+		n++
+		good := false
+		for _, c := range calls {
+			if engine.InstrDominates(c, ret) {
+				good = true
+			}
+		}
+		r.Check(good, rule, o.next(fn(f)+"|export returned"), r.P.Pos(ret.Pos()), "the export is returned only after the nodes were collected from the root",
+			"GetPath hands out an export on a path that never collected the trie's nodes (a shortcut in front of the marking and collection): what is exported is not the trie - a non-empty trie that merely looks empty to the shortcut (collapsed root of total weight 0) is exported as the empty trie, and the partial trie built from it has another root")
+	}
+	if n < 1 {
+		r.Anchor(rule, fmt.Errorf("unresolved anchor: export returns of GetPath"))
+	}
+}
+
+// recordsEvery: the created-hash handler of Commit records every hash it receives:
+// in its receive loop no path leads from the receive back to the loop head (the
+// next receive) without passing the append onto the created list (directly or in
+// the trie method the handler hands the hash to). A hash that is skipped - because
+// it was found queued for collection, say - belongs to no list: a rollback does
+// not remove it and the collector never sees it.
+func recordsEvery(r *engine.Run, rule string) {
+	f := wfn(r, rule, "collectDeleteAndCreated")
+	if f == nil {
+		return
+	}
+	storesCreated := func(g *ssa.Function) []*ssa.BasicBlock {
+		var out []*ssa.BasicBlock
+		engine.Instrs(g, func(in ssa.Instruction) {
+			if st, ok := in.(*ssa.Store); ok {
+				if fld := engine.FieldOf(st.Addr); fld != nil && fld.Name() == "created" {
+					if c, ok := st.Val.(*ssa.Call); ok {
+						if b, ok := c.Call.Value.(*ssa.Builtin); ok && b.Name() == "append" {
+							out = append(out, st.Block())
+						}
+					}
+				}
+			}
+		})
+		return out
+	}
+	n := 0
+	for _, a := range f.AnonFuncs {
+		// record points: appends in the closure, or calls of a trie method that appends on every path
+		rec := map[*ssa.BasicBlock]bool{}
+		for _, b := range storesCreated(a) {
+			rec[b] = true
+		}
+		engine.Instrs(a, func(in ssa.Instruction) {
+			c, ok := in.(*ssa.Call)
+			if !ok {
+				return
+			}
+			h := c.Call.StaticCallee()
+			if h == nil || h.Pkg != f.Pkg || len(h.Blocks) == 0 {
+				return
+			}
+			bs := storesCreated(h)
+			if len(bs) == 0 {
+				return
+			}
+			all := true
+			for _, ret := range engine.Returns(h) {
+				dom := false
+				for _, b := range bs {
+					if b == ret.Block() || b.Dominates(ret.Block()) {
+						dom = true
+					}
+				}
+				if !dom {
+					all = false
+				}
+			}
+			if all {
+				rec[c.Block()] = true
+				r.Touch(h)
+			}
+		})
+		if len(rec) == 0 {
+			continue
+		}
+		// the receive loop: a block that receives (range over a channel) and branches on ok
+		for _, b := range a.Blocks {
+			var recv *ssa.UnOp
+			for _, in := range b.Instrs {
+				if u, ok := in.(*ssa.UnOp); ok && u.Op == token.ARROW && u.CommaOk {
+					recv = u
+				}
+			}
+			iff, isIf := b.Instrs[len(b.Instrs)-1].(*ssa.If)
+			if recv == nil || !isIf {
+				continue
+			}
+			n++
+			body := b.Succs[0]
+			skipped := false
+			seen := map[*ssa.BasicBlock]bool{}
+			var dfs func(x *ssa.BasicBlock)
+			dfs = func(x *ssa.BasicBlock) {
+				if seen[x] || skipped {
+					return
+				}
+				seen[x] = true
+				if rec[x] {
+					return
+				}
+				if x == b {
+					skipped = true
+					return
+				}
+				for _, s := range x.Succs {
+					dfs(s)
+				}
+			}
+			dfs(body)
+			_ = iff
+			r.Check(!skipped, rule, fn(a)+"|every received hash is recorded", r.P.Pos(recv.Pos()), "no path from the receive to the next receive bypasses the append onto the created list",
+				"the created-hash handler can go on to the next hash without recording the one it received (a path through the loop body bypasses the append onto the created list): that node is in neither list, so a rollback of the commit leaves it in storage and the collector never removes it")
+		}
+	}
+	if n < 1 {
+		r.Anchor(rule, fmt.Errorf("unresolved anchor: receive loop of the created-hash handler"))
+	}
+}
+
+// nilNilUnderEmpty: every (nil, ..., nil) return of g is reached only where
+// len(parameter k) == 0 tested true, for one slice parameter k; -1 otherwise.
+func nilNilUnderEmpty(g *ssa.Function) int {
+	k := -1
+	for _, ret := range engine.Returns(g) {
+		if len(ret.Results) < 2 || !nilConst(ret.Results[0]) || !nilConst(ret.Results[len(ret.Results)-1]) {
+			continue
+		}
+		facts, ok := engine.FactsOn(g, ret.Block())
+		if !ok {
+			return -1
+		}
+		found := -1
+		for _, ft := range facts {
+			if ft.Kind != "eq" || !ft.Truth {
+				continue
+			}
+			for _, pr := range [][2]ssa.Value{{ft.A, ft.B}, {ft.B, ft.A}} {
+				if z, ok := intConst(pr[1]); !ok || z != 0 {
+					continue
+				}
+				if c, ok := pr[0].(*ssa.Call); ok {
+					if b, ok := c.Call.Value.(*ssa.Builtin); ok && b.Name() == "len" {
+						for i, p := range g.Params {
+							if c.Call.Args[0] == ssa.Value(p) {
+								found = i
+							}
+						}
+					}
+				}
+			}
+		}
+		if found < 0 || (k >= 0 && k != found) {
+			return -1
+		}
+		k = found
+	}
+	return k
+}
+
+// nonEmptyFact: the facts establish len(x) != 0.
+func nonEmptyFact(facts []engine.Fact, x ssa.Value) bool {
+	isLenX := func(v ssa.Value) bool {
+		c, ok := v.(*ssa.Call)
+		if !ok {
+			return false
+		}
+		b, ok := c.Call.Value.(*ssa.Builtin)
+		return ok && b.Name() == "len" && (c.Call.Args[0] == x || engine.ValKey(c.Call.Args[0]) == engine.ValKey(x))
+	}
+	for _, ft := range facts {
+		switch ft.Kind {
+		case "eq":
+			for _, pr := range [][2]ssa.Value{{ft.A, ft.B}, {ft.B, ft.A}} {
+				if z, ok := intConst(pr[1]); ok && z == 0 && isLenX(pr[0]) && !ft.Truth {
+					return true
+				}
+			}
+		case "lt":
+			// 0 < len(x) true, or len(x) < 1 false
+			if z, ok := intConst(ft.A); ok && z == 0 && isLenX(ft.B) && ft.Truth {
+				return true
+			}
+			if z, ok := intConst(ft.B); ok && z == 1 && isLenX(ft.A) && !ft.Truth {
+				return true
+			}
+		}
+	}
+	return false
+}
+
+// refLiveChange: the change collector rewrites the change objects it holds in
+// place (AddChange turns a chain A -> B into A -> C by assigning the New field of
+// the object found in its map), under its own lock. A method that hands those
+// very objects to a caller lets the caller read them with no lock at all: a
+// goroutine that inspects a change set races with a writer updating the same
+// key. Either the held objects are never rewritten, or what is handed out are
+// copies.
+//
+// Rule: if some function of the package stores into a field of a *NodeChange that
+// it looked up in a collector's Changes map, then no function puts a *NodeChange
+// obtained from that map (lookup or range) into a slice element, an append or a
+// return value.
+func refLiveChange(r *engine.Run, rule string) {
+	fromChangesMap := func(v ssa.Value) bool {
+		ex, ok := v.(*ssa.Extract)
+		if !ok {
+			if lk, ok := v.(*ssa.Lookup); ok {
+				return isFieldLoadNamed(lk.X, "Changes")
+			}
+			return false
+		}
+		switch t := ex.Tuple.(type) {
+		case *ssa.Lookup:
+			return ex.Index == 0 && isFieldLoadNamed(t.X, "Changes")
+		case *ssa.Next:
+			if rg, ok := t.Iter.(*ssa.Range); ok {
+				return ex.Index == 2 && isFieldLoadNamed(rg.X, "Changes")
+			}
+		}
+		return false
+	}
+	var writers, leaks []ssa.Instruction
+	var leakFn []*ssa.Function
+	for _, f := range funcsOfPkg(r, pkgUtil) {
+		if len(f.Blocks) == 0 {
+			continue
+		}
+		engine.Instrs(f, func(in ssa.Instruction) {
+			switch x := in.(type) {
+			case *ssa.Store:
+				if fa, ok := x.Addr.(*ssa.FieldAddr); ok && fromChangesMap(fa.X) {
+					writers = append(writers, x)
+					r.Touch(f)
+				}
+				if _, ok := x.Addr.(*ssa.IndexAddr); ok && fromChangesMap(x.Val) {
+					leaks = append(leaks, x)
+					leakFn = append(leakFn, f)
+					r.Touch(f)
+				}
+			case *ssa.Return:
+				for _, res := range x.Results {
+					if fromChangesMap(res) {
+						leaks = append(leaks, x)
+						leakFn = append(leakFn, f)
+					}
+				}
+			case *ssa.Call:
+				if b, ok := x.Call.Value.(*ssa.Builtin); ok && b.Name() == "append" {
+					for _, a := range x.Call.Args[1:] {
+						if fromChangesMap(a) {
+							leaks = append(leaks, x)
+							leakFn = append(leakFn, f)
+						}
+					}
+				}
+			}
+		})
+	}
+	if len(writers) == 0 {
+		r.OK(rule, "core/util|held changes", "-", "no function rewrites a change object held in a collector's map: handing the objects out is harmless")
+		return
+	}
+	w := writers[0]
+	if len(leaks) == 0 {
+		r.OK(rule, "core/util|held changes", r.P.Pos(w.Pos()), fmt.Sprintf("change objects held in the map are rewritten in place (%d sites) and never handed out: GetChanges and the like hand out copies", len(writers)))
+		return
+	}
+	o := ord{}
+	for i, l := range leaks {
+		r.Fail(rule, o.next(fn(leakFn[i])+"|hands out a held change"), r.P.Pos(l.Pos()),
+			fn(leakFn[i])+" hands out the collector's own change objects, which "+fn(w.Parent())+" rewrites in place ("+r.P.Pos(w.Pos())+") under the collector's lock: a goroutine that reads the change set it was given (no lock) races with a writer updating the same key")
+	}
+}
+
+func isFieldLoadNamed(v ssa.Value, name string) bool {
+	fld := fieldLoadOf(v)
+	return fld != nil && fld.Name() == name
+}
